@@ -101,6 +101,21 @@ func Value(r *core.Rand, o *QOpts, depth int, constOnly bool) *m.Value {
 	case 9, 10:
 		v := &m.Value{Kind: m.VList}
 		n := r.Intn(4)
+		if r.Chance(1, 150) {
+			// a long flat list, and sometimes an object literal with as many fields
+			n = 129 + r.Intn(200)
+			if r.Chance(1, 3) {
+				ov := &m.Value{Kind: m.VObject}
+				for i := 0; i < n; i++ {
+					ov.Fields = append(ov.Fields, m.ObjField{Name: name(r, o), Value: Value(r, o, 0, constOnly)})
+				}
+				return ov
+			}
+			for i := 0; i < n; i++ {
+				v.Items = append(v.Items, Value(r, o, 0, constOnly))
+			}
+			return v
+		}
 		for i := 0; i < n; i++ {
 			v.Items = append(v.Items, Value(r, o, depth-1, constOnly))
 		}
@@ -187,7 +202,7 @@ func varDefs(r *core.Rand, o *QOpts) []m.VarDef {
 	n := 1 + r.Intn(3)
 	var vs []m.VarDef
 	for i := 0; i < n; i++ {
-		v := m.VarDef{Name: name(r, o), Type: Type(r, o, 2)}
+		v := m.VarDef{Name: name(r, o), Type: Type(r, o, 2+r.Intn(3))}
 		if r.Chance(1, 3) {
 			v.Default = Value(r, o, 2, true)
 		}
